@@ -48,7 +48,7 @@ def variant_world(world, variant):
             f = v[4:]
             for c in w['comps']:
                 for k in c.get('fmt', {}):
-                    if c['fmt'][k] not in ('dense_cp', 'coo_cp') and c['fmt'][k] != 'diag':
+                    if not c['fmt'][k].endswith('_cp') and c['fmt'][k] != 'diag':
                         c['fmt'][k] = f
         elif v.startswith('ln:'):
             for s in w['solvers'].values():
@@ -775,6 +775,11 @@ class Sim:
             if used:
                 hmin, hmax = min(hmin, used[0]), max(hmax, used[1])
             delta += 64 * EPS * terms(c) / hmin
+            if a['form'] != 'central' and self._iterative():
+                # base point of one-sided differences = the residual vector, which after an iterative solve is
+                # the residual of the last iterate the solver looked at (within its tolerance of the current one)
+                sc_ = max([float(np.max(np.abs(o[k_]))) for o in c['outs'] for k_ in ('res_ref', 'ref') if k_ in o] + [1.0])
+                delta += 10.0 * self.nl_tol()['atol'] * sc_ / hmin
             if c.get('quad') and a['form'] != 'central':
                 delta += float(np.abs(c['quad']['coef']).max()) * hmax
         ga_scoped = [(g_, a) for g_, a in (self.knobs.get('group_approx') or {}).items() if g_ in self.world['groups']]
